@@ -102,7 +102,7 @@ def gen_plan(rng, tier='quick', traces=None):
         if n >= 5 and rng.random() < 0.8:
             k = rng.randint(1, min(7, n - 2)) if rng.random() < 0.95 else 0
             vals = sorted(rng.sample(range(1, n - 1), k))
-            pool.append({'kind': 'idx', 'curve': ci, 'values': vals, 'layout': rng.choice(['C', 'C', 'view', 'list']),
+            pool.append({'kind': 'idx', 'curve': ci, 'values': vals, 'layout': rng.choice(['C', 'C', 'view', 'list', 'i32']),
                          'salt': rng.randrange(1 << 30)})
         if n >= 5 and rng.random() < 0.7:
             k = rng.randint(1, min(5, n - 2))
@@ -177,6 +177,8 @@ def _materialise(pool, world):
                 v = big[1:1 + 2 * len(o['values']):2]
                 v[...] = o['values']
                 objs.append(v)
+            elif o['layout'] == 'i32' and world == 'sim':
+                objs.append(np.array(o['values'], dtype=np.int32))
             else:
                 objs.append(np.array(o['values'], dtype=np.int64))
         elif o['kind'] == 'tlist':
